@@ -170,7 +170,10 @@ func builtinArraySplice(call FunctionCall) Value {
 
 	start := valueToRangeIndex(call.Argument(0), length, false)
 	deleteCount := length - start
-	if arg, ok := call.getArgument(1); ok {
+	if len(call.ArgumentList) == 0 {
+		// ES5 15.4.4.12: ToInteger(undefined) = 0, nothing is removed.
+		deleteCount = 0
+	} else if arg, ok := call.getArgument(1); ok {
 		deleteCount = valueToRangeIndex(arg, length-start, true)
 	}
 	valueArray := make([]Value, deleteCount)
